@@ -903,8 +903,18 @@ impl<'a, 'b> Gen<'a, 'b> {
     pub fn stmt(&mut self, depth: usize, decl_ok: bool) -> Stmt {
         self.budget = self.budget.saturating_sub(1);
         let roll = self.t.below(if depth == 0 { 8 } else { 14 });
-        if self.p.call_bias > 0 && self.t.chance(24) {
+        if self.p.call_bias > 0 && self.t.chance(if self.in_loop > 0 { 40 } else { 24 }) {
             if let Some(s) = self.array_chain() {
+                return s;
+            }
+        }
+        if self.p.uninit_decl && self.p.elementwise_first && self.p.call_bias > 0 && depth > 0 && self.t.chance(14) {
+            if let Some(s) = self.loop_filled_array() {
+                return s;
+            }
+        }
+        if self.p.self_update_bias > 0 && self.p.call_bias > 0 && depth > 0 && self.t.chance(16) {
+            if let Some(s) = self.accumulate_while() {
                 return s;
             }
         }
@@ -1086,7 +1096,8 @@ impl<'a, 'b> Gen<'a, 'b> {
             }
             let lhs = Expr::Var { id: self.ids.next(), name: x.name.clone(), access: vec![] };
             let read = Stmt::Assign { id: self.ids.next(), lhs, op: AssignOp::Var, rhs, reversed: false };
-            if read_between && k == first_index {
+            let _ = first_index;
+            if read_between {
                 // write, read of the element just written, second write
                 stmts.insert(1, read);
             } else {
@@ -1095,6 +1106,116 @@ impl<'a, 'b> Gen<'a, 'b> {
             self.assigned.insert(x.key);
         }
         Some(Stmt::Block { id: self.ids.next(), stmts })
+    }
+
+    /// `{ var za[2]; for (var i = 0; i < B; i++) { za[1] = lit; x = za[0] op e; za[0] = <data>; } }`:
+    /// an array that is declared before a loop and only written inside it, read between the writes.
+    fn loop_filled_array(&mut self) -> Option<Stmt> {
+        let scalars: Vec<VarInfo> = self.local_targets().into_iter().filter(|v| v.ty == Ty::Var).collect();
+        if scalars.is_empty() || self.control_ctx {
+            return None;
+        }
+        let x = scalars[self.t.below(scalars.len())].clone();
+        let za = self.fresh_name("za");
+        let i = self.fresh_name("i");
+        let bound = 2 + self.t.below(3) as u64;
+        let num = |g: &mut Self, v: u64| g.small_literal(v);
+        let decl = Stmt::Decl {
+            id: self.ids.next(),
+            kind: DeclKind::Var,
+            syms: vec![DeclSym { id: self.ids.next(), sub_id: self.ids.next(), name: za.clone(), dims: vec![num(self, 2)], init: None }],
+            init_op: AssignOp::Var,
+        };
+        let init = Stmt::Decl {
+            id: self.ids.next(),
+            kind: DeclKind::Var,
+            syms: vec![DeclSym { id: self.ids.next(), sub_id: self.ids.next(), name: i.clone(), dims: vec![], init: Some(num(self, 0)) }],
+            init_op: AssignOp::Var,
+        };
+        let cond = Expr::Infix {
+            id: self.ids.next(),
+            op: Op::Lt,
+            l: Box::new(Expr::Var { id: self.ids.next(), name: i.clone(), access: vec![] }),
+            r: Box::new(num(self, bound)),
+        };
+        let step = Stmt::IncDec { id: self.ids.next(), name: i.clone(), access: vec![], inc: true };
+        // the two element writes: a literal first, a data expression later (or the other way round)
+        let (lo, hi) = if self.t.chance(200) { (1u64, 0u64) } else { (0, 1) };
+        let lit = self.literal();
+        self.in_loop += 1;
+        let (data, d) = self.expr_tracked(2);
+        let (e, d2) = self.expr_tracked(1);
+        self.in_loop -= 1;
+        let elem = |g: &mut Self, k: u64| Expr::Var { id: g.ids.next(), name: za.clone(), access: vec![Access::Index(g.small_literal(k))] };
+        let w1 = Stmt::Assign { id: self.ids.next(), lhs: elem(self, lo), op: AssignOp::Var, rhs: lit, reversed: false };
+        let read_elem = elem(self, hi);
+        let rhs = if self.t.chance(128) {
+            read_elem
+        } else {
+            let op = self.infix_op();
+            Expr::Infix { id: self.ids.next(), op, l: Box::new(read_elem), r: Box::new(e) }
+        };
+        let lhs = Expr::Var { id: self.ids.next(), name: x.name.clone(), access: vec![] };
+        let rd = Stmt::Assign { id: self.ids.next(), lhs, op: AssignOp::Var, rhs, reversed: false };
+        let w2 = Stmt::Assign { id: self.ids.next(), lhs: elem(self, hi), op: AssignOp::Var, rhs: data, reversed: false };
+        if d || d2 {
+            self.tainted.insert(x.key);
+        }
+        self.assigned.insert(x.key);
+        let body = Stmt::Block { id: self.ids.next(), stmts: vec![w1, rd, w2] };
+        let for_stmt = Stmt::For { id: self.ids.next(), init: Box::new(init), cond, step: Box::new(step), body: Box::new(body) };
+        Some(Stmt::Block { id: self.ids.next(), stmts: vec![decl, for_stmt] })
+    }
+
+    /// `{ var w = 0; while (w < B) { w++; var nx = acc op <data>; acc = nx; } }`: the counter is stepped
+    /// first and the loop-carried value comes back through a plain copy as the last statement of the body.
+    fn accumulate_while(&mut self) -> Option<Stmt> {
+        let scalars: Vec<VarInfo> =
+            self.local_targets().into_iter().filter(|v| v.ty == Ty::Var && self.assigned.contains(&v.key)).collect();
+        if scalars.is_empty() || self.control_ctx {
+            return None;
+        }
+        let acc = scalars[self.t.below(scalars.len())].clone();
+        let w = self.fresh_name("w");
+        let nx = self.fresh_name("nx");
+        let bound = 2 + self.t.below(3) as u64;
+        let decl = Stmt::Decl {
+            id: self.ids.next(),
+            kind: DeclKind::Var,
+            syms: vec![DeclSym { id: self.ids.next(), sub_id: self.ids.next(), name: w.clone(), dims: vec![], init: Some(self.small_literal(0)) }],
+            init_op: AssignOp::Var,
+        };
+        let cond = Expr::Infix {
+            id: self.ids.next(),
+            op: Op::Lt,
+            l: Box::new(Expr::Var { id: self.ids.next(), name: w.clone(), access: vec![] }),
+            r: Box::new(self.small_literal(bound)),
+        };
+        let step = Stmt::IncDec { id: self.ids.next(), name: w.clone(), access: vec![], inc: true };
+        self.in_loop += 1;
+        let (e, d) = self.expr_tracked(1);
+        self.in_loop -= 1;
+        let op = if self.t.chance(200) { Op::Mul } else { self.infix_op() };
+        let me = Expr::Var { id: self.ids.next(), name: acc.name.clone(), access: vec![] };
+        let rhs = Expr::Infix { id: self.ids.next(), op, l: Box::new(me), r: Box::new(e) };
+        let nx_decl = Stmt::Decl {
+            id: self.ids.next(),
+            kind: DeclKind::Var,
+            syms: vec![DeclSym { id: self.ids.next(), sub_id: self.ids.next(), name: nx.clone(), dims: vec![], init: Some(rhs) }],
+            init_op: AssignOp::Var,
+        };
+        let lhs = Expr::Var { id: self.ids.next(), name: acc.name.clone(), access: vec![] };
+        let copy = Stmt::Assign {
+            id: self.ids.next(),
+            lhs,
+            op: AssignOp::Var,
+            rhs: Expr::Var { id: self.ids.next(), name: nx, access: vec![] },
+            reversed: false,
+        };
+        self.taint(acc.key, d);
+        let body = Stmt::Block { id: self.ids.next(), stmts: vec![step, nx_decl, copy] };
+        let wh = Stmt::While { id: self.ids.next(), cond, body: Box::new(body) };
+        Some(Stmt::Block { id: self.ids.next(), stmts: vec![decl, wh] })
     }
 
     /// `{ var nx = x op e; x = nx; }`: a loop-carried value that goes through a plain copy.
